@@ -381,19 +381,38 @@ def replay_unpaired(ctx, model, what):
 
 
 def rerun(pid, path):
-    """`./check <id> --replay <file.json>`: re-run the recorded native command on the current tree and show both sides."""
+    """`./check <id> --replay <file.json>`: re-run the recorded native command(s) on the current tree. Exit 1 when the recorded
+    (deviating) native outcome is observed again, 0 when the current tree behaves differently."""
     payload = json.load(open(path))
     ctx = core.Ctx(pid, 'quick', 0)
     drv = Driver.get(ctx)
-    cmds = payload.get('commands') or [payload['command']]
-    cmds = [c for c in cmds if re.match(r'\w+ ', c)]
-    out = drv.run([payload['command']]) if 'command' in payload else []
-    print('recorded native outcome :', payload.get('native'))
-    print('reference               :', payload.get('reference'))
-    print('native outcome now      :', [parse_result(o) for o in out])
-    same = out and list(parse_result(out[0])) == [x if not isinstance(x, list) else x for x in payload.get('native', [])]
-    print('deviation recorded      :', payload.get('deviation'))
-    return 1 if out and json.loads(json.dumps(parse_result(out[0]))) == payload.get('native') else 0
+    cmds = [payload['command']] if 'command' in payload else list(payload.get('commands', []))
+    cmds = [c for c in cmds if re.match(r'[a-z_0-9]+ ', c) and '<' not in c]
+    if not cmds:
+        print('this replay file records a battery, not a single command; recorded deviation:', payload.get('deviation'))
+        return 2
+    out = drv.run(cmds)
+
+    def norm(x):
+        if isinstance(x, (list, tuple)):
+            return [norm(y) for y in x]
+        return x
+    now = []
+    for o in out:
+        now.append(unbits(o) if re.fullmatch(r'0x[0-9a-f]{16}', o) else norm(parse_result(o)))
+    rec = payload.get('native')
+    if len(now) == 1 and not (isinstance(rec, list) and rec and isinstance(rec[0], list) and len(cmds) > 1):
+        now_cmp = now[0]
+    else:
+        now_cmp = now
+    print('command(s)              :', cmds)
+    print('recorded native outcome :', rec)
+    print('reference / bound       :', payload.get('reference', payload.get('exact', payload.get('documented_outcome'))))
+    print('native outcome now      :', now_cmp)
+    print('recorded deviation      :', payload.get('deviation'))
+    same = json.loads(json.dumps(now_cmp)) == rec
+    print('=> the recorded deviating outcome %s on the current tree' % ('REPRODUCES' if same else 'does not reproduce'))
+    return 1 if same else 0
 
 
 # ----------------------------------------------------------------------------------------------- fallback confirmations
